@@ -18,6 +18,7 @@ SOURCES = [  # (kind, generator module, shards, env, how many cases to keep)
     ("c07", "Gen_C07", [1, 2, 3, 4], {}, 600),
     ("c19", "Gen_C19", [0], {}, 200),
     ("c13", "Gen_C13", [0], {}, 300),
+    ("c20x", "Gen_C20", [0], {}, 2000),
 ]
 
 
@@ -74,7 +75,8 @@ def run(tier: str, seed: int) -> int:
         rule="corpus = cases of the TLC generators of C01 (rules x backend configurations), C11 (filters, random prefix), C12 "
         "(transformations incl. one-to-many mappings and added conditions with random names), C17 (placeholder pipelines), C07 "
         "(malformed documents: error records), C19 (all validators: issue lists), C13 (generated item identifiers, applied-id "
-        "sets); every case is executed in separately started interpreters for each (PYTHONHASHSEED, random.seed) pair - quick "
+        "sets), the generator of C20 itself (regex flag sets on backends supporting a subset of the flags, several unmapped fields under the "
+        "strict mapping check, merged variable tables); every case is executed in separately started interpreters for each (PYTHONHASHSEED, random.seed) pair - quick "
         "4 x 2, thorough 16 x 3 - and its output text (queries in order, or error / issue records) is digested; distinct = "
         "corpus cases",
         samples=samples,
